@@ -640,6 +640,32 @@ func checkDelta(h *muxrun.History, c *media.Case, id string, res *c06Result, fai
 			}
 			_ = tail
 		}
+		// the same delta update must come back when the request is also a blocking reload that can be
+		// answered at once: for the last complete segment, and for part 0 of the open one
+		var combos []string
+		if len(f.Segments) > 0 {
+			combos = append(combos, fmt.Sprintf("_HLS_msn=%d", f.Segments[len(f.Segments)-1].MSN))
+			if len(f.TrailingParts) > 0 {
+				combos = append(combos, fmt.Sprintf("_HLS_msn=%d&_HLS_part=0", f.Segments[len(f.Segments)-1].MSN+1))
+			}
+		}
+		for _, cb := range combos {
+			r := h.GetNow(name + "?" + q + cb + "&_HLS_skip=" + dir)
+			if r == nil {
+				continue
+			}
+			res.obs["delta_updates_with_blocking_reload"]++
+			if !r.OK() {
+				fail("delta-reload-status", "%s&_HLS_skip=%s: status %d", cb, dir, r.Status)
+			} else if string(r.Body) != string(d.Body) {
+				rp := m3u8x.Parse(r.Body)
+				what := "differs from the plain delta update of the same instant"
+				if rp.Media != nil && rp.Media.Skip == nil {
+					what = "is the full playlist (no EXT-X-SKIP)"
+				}
+				fail("delta-reload", "%s&_HLS_skip=%s: the response %s", cb, dir, what)
+			}
+		}
 		for _, u := range allURIs(dl) {
 			if strings.Contains(u, "_HLS_") {
 				fail("hls-param-leak", "delta update lists URI %s", u)
